@@ -69,15 +69,15 @@ pub enum Funds {
 
 #[derive(Clone, Debug)]
 pub enum Op {
-    Stake { sender: P, mint_to: MintTo, flag: Option<bool>, expected: bool, funds: Funds, faults: Vec<bool> },
+    Stake { sender: P, mint_to: MintTo, flag: Option<bool>, expected: bool, funds: Funds, faults: Vec<u8> },
     Unstake { sender: P, funds: Funds },
     /// unstake exactly the amount minted by the most recent stake (round-trip clause of C04)
     UnstakeMinted { sender: P },
     Submit { sender: P },
     Withdraw { sender: P, batch: u64 },
-    Rewards { sender: P, funds: Funds, faults: Vec<bool> },
+    Rewards { sender: P, funds: Funds, faults: Vec<u8> },
     ReceiveUnstaked { sender: P, batch: u64, funds: Funds },
-    Recover { sender: P, paginated: Option<bool>, selected: Option<Vec<u64>>, receiver: Option<&'static str>, faults: Vec<bool> },
+    Recover { sender: P, paginated: Option<bool>, selected: Option<Vec<u64>>, receiver: Option<&'static str>, faults: Vec<u8> },
     FeeWithdraw { sender: P },
     Ibc { seq: u64, outcome: u8 },
     StrayCallback { seq: u64, outcome: u8, foreign_channel: bool },
